@@ -15,114 +15,8 @@ hashes, sorted sets with float64 bit patterns incl. +-0, subnormals, extremes, +
 encoders from a known logical value through DecodeDump; sequences of (db,key,expiry,object) through NewEncoder and the Loader; \
 non-trivial = non-empty value; distinct by wire line"
 
-let bs = bytes_of_string
-let fmt_g17 (b : n) : byte list = bs (Printf.sprintf "%.17g" (Int64.float_of_bits (Int64.of_string ("0u" ^ decimal_of_n b))))
-let bits_of_float f = n_of_decimal (Printf.sprintf "%Lu" (Int64.bits_of_float f))
-let parse_float (t : byte list) : n option =
-  match float_of_string_opt (string_of_bytes t) with
-  | Some f -> if Float.is_nan f then Some nan_bits else Some (bits_of_float f)
-  | None -> None
-
-let hexs s = hex_of_string s
-let show_l = function
-  | LString s -> "S:" ^ hex_of_bytes s
-  | LList l -> "L:" ^ (if l = [] then "_" else String.concat "," (List.map hex_of_bytes l))
-  | LSet l -> "T:" ^ (if l = [] then "_" else String.concat "," (List.map hex_of_bytes l))
-  | LHash l -> "H:" ^ (if l = [] then "_" else String.concat "," (List.map (fun (f, v) -> hex_of_bytes f ^ "=" ^ hex_of_bytes v) l))
-  | LZSet l -> "Z:" ^ (if l = [] then "_" else String.concat "," (List.map (fun (m, b) ->
-        hex_of_bytes m ^ "=" ^ Printf.sprintf "%Lx" (Int64.of_string ("0u" ^ decimal_of_n b))) l))
-
-let int_strings = [ "0"; "-1"; "127"; "128"; "-128"; "-129"; "32767"; "32768"; "-32768"; "-32769"; "2147483647"; "2147483648";
-                    "-2147483648"; "-2147483649"; "007"; "+5"; "-0"; " 1"; "1 "; "12a"; ""; "9223372036854775807"; "99999999999999999999" ]
-let gen_str st =
-  match rnd_int st 6 with
-  | 0 -> rnd_pick st int_strings
-  | 1 -> string_of_int (rnd_int st 100000 - 50000)
-  | 2 -> rnd_string st (rnd_pick st [ 63; 64; 65 ])
-  | 3 -> if rnd_int st 20 = 0 then rnd_string st (rnd_pick st [ 16383; 16384 ]) else rnd_string st (rnd_int st 8)
-  | _ -> rnd_string st (rnd_int st 20)
-
-let score_bits st : n =
-  match rnd_int st 12 with
-  | 0 -> nan_bits | 1 -> pinf_bits | 2 -> ninf_bits
-  | 3 -> bits_of_float 0.0 | 4 -> bits_of_float (-0.0) | 5 -> n_of_int 1 (* smallest subnormal *)
-  | 6 -> bits_of_float max_float | 7 -> bits_of_float min_float | 8 -> bits_of_float (-1.5e300)
-  | 9 -> n_of_decimal "9221120237041090561" (* another NaN pattern *)
-  | _ -> bits_of_float (float_of_int (rnd_int st 2000000 - 1000000) /. (float_of_int (1 + rnd_int st 1000)))
-
-let gen_logical st =
-  let k = rnd_pick st [ 0; 1; 2; 3; rnd_int st 10 ] in
-  match rnd_int st 5 with
-  | 0 -> LString (bs (gen_str st))
-  | 1 -> LList (List.init k (fun _ -> bs (gen_str st)))
-  | 2 -> LSet (List.init k (fun _ -> bs (gen_str st)))
-  | 3 -> LHash (List.init k (fun _ -> (bs (gen_str st), bs (gen_str st))))
-  | _ -> LZSet (List.init k (fun _ -> (bs (gen_str st), score_bits st)))
-
-(* compact encodings from the spec encoders *)
-let gen_zval st : zval =
-  match rnd_int st 9 with
-  | 0 -> ZStr6 (bs (rnd_string st (rnd_pick st [ 0; 1; 5; 63 ])))
-  | 1 -> ZStr14 (bs (rnd_string st (rnd_pick st [ 0; 64; 300 ])))
-  | 2 -> ZStr32 (bs (rnd_string st (rnd_pick st [ 0; 3; 70 ])))
-  | 3 -> ZI16 (z_of_int (rnd_pick st [ -32768; 32767; 300; -300 ]))
-  | 4 -> ZI32 (z_of_int (rnd_pick st [ -2147483648; 2147483647; 70000 ]))
-  | 5 -> ZI64 (z_of_decimal (rnd_pick st [ "-9223372036854775808"; "9223372036854775807"; "5000000000" ]))
-  | 6 -> ZI24 (z_of_int (rnd_pick st [ -8388608; 8388607; 40000; -40000 ]))
-  | 7 -> ZI8 (z_of_int (rnd_pick st [ -128; 127; 13; -1 ]))
-  | _ -> ZImm (n_of_int (rnd_int st 13))
-let gen_prev st = if rnd_int st 4 = 0 then P5 (n_of_int (rnd_pick st [ 254; 300; 70000 ])) else P1 (n_of_int (rnd_int st 254))
-
-let ziplist st (vals : zval list) = string_of_bytes (enc_ziplist (n_of_int (rnd_int st 1000)) (n_of_int (rnd_int st 1000)) (List.map (fun v -> (gen_prev st, v)) vals))
-let rstr st (s : string) : byte list =   (* the blob as an RDB string: raw or LZF *)
-  if rnd_int st 4 = 0 && s <> "" then begin
-    let blob = Rdbgen.lzf_compress s in
-    enc_string (SLzf (Rdbgen.form st (String.length blob), Rdbgen.form st (String.length s), bs blob, n_of_int (String.length s)))
-  end else enc_string (SRaw (Rdbgen.form st (String.length s), bs s))
-
-let gen_compact st : case =
-  match rnd_int st 7 with
-  | 0 ->
-      let vals = List.init (rnd_int st 6) (fun _ -> gen_zval st) in
-      Dec ("ziplist list", 10, string_of_bytes (rstr st (ziplist st vals)), Some (LList (List.map zval_logical vals)))
-  | 1 ->
-      let n = rnd_int st 4 in
-      let vals = List.init (2 * n) (fun _ -> gen_zval st) in
-      let l = List.map zval_logical vals in
-      let rec prs = function a :: b :: r -> (a, b) :: prs r | _ -> [] in
-      Dec ("ziplist hash", 13, string_of_bytes (rstr st (ziplist st vals)), Some (LHash (prs l)))
-  | 2 ->
-      let n = rnd_int st 4 in
-      let ms = List.init n (fun _ -> (gen_zval st, score_bits st)) in
-      let ms = List.map (fun (m, b) -> (m, if is_nan b then pinf_bits else b)) ms in
-      let score_val b = let t = if b = pinf_bits then "inf" else if b = ninf_bits then "-inf" else string_of_bytes (fmt_g17 b) in
-        if String.length t < 64 then ZStr6 (bs t) else ZStr14 (bs t) in
-      let vals = List.concat_map (fun (m, b) -> [ m; score_val b ]) ms in
-      Dec ("ziplist zset", 12, string_of_bytes (rstr st (ziplist st vals)), Some (LZSet (List.map (fun (m, b) -> (zval_logical m, b)) ms)))
-  | 3 ->
-      let w = rnd_pick st [ 2; 4; 8 ] in
-      let lim = match w with 2 -> [ "-32768"; "32767"; "5" ] | 4 -> [ "-2147483648"; "2147483647"; "70000" ] | _ -> [ "-9223372036854775808"; "9223372036854775807"; "5000000000" ] in
-      let zs = List.init (rnd_int st 6) (fun _ -> rnd_pick st lim) in
-      Dec (Printf.sprintf "intset %d" (8 * w), 11, string_of_bytes (rstr st (string_of_bytes (enc_intset (n_of_int w) (List.map z_of_decimal zs)))),
-           Some (LSet (List.map bs zs)))
-  | 4 ->
-      let n = if rnd_int st 25 = 0 then 254 + rnd_int st 4 else rnd_int st 5 in
-      let ps = List.init n (fun i -> if n >= 254 then (string_of_int i, "v", "") else
-                              (rnd_string st (rnd_pick st [ 0; 1; 7; 252 ]), rnd_string st (rnd_pick st [ 0; 3; 100; 252 ]), String.make (rnd_int st 4) 'f')) in
-      let zmlen = min n 254 in
-      Dec ("zipmap", 9, string_of_bytes (rstr st (string_of_bytes (enc_zipmap (n_of_int zmlen) (List.map (fun (k, v, f) -> ((bs k, bs v), bs f)) ps)))),
-           Some (LHash (List.map (fun (k, v, _) -> (bs k, bs v)) ps)))
-  | 5 ->
-      let nz = rnd_int st 4 in
-      let zls = List.init nz (fun _ -> List.init (rnd_int st 4) (fun _ -> gen_zval st)) in
-      let body = enc_len (Rdbgen.form st nz) (n_of_int nz) @ List.concat_map (fun vals -> rstr st (ziplist st vals)) zls in
-      Dec ("quicklist", 14, string_of_bytes body, Some (LList (List.map zval_logical (List.concat zls))))
-  | _ ->
-      let n = rnd_int st 4 in
-      let ms = List.init n (fun _ -> (gen_str st, Bytes.to_string (Bytes.init 8 (fun _ -> Char.chr (rnd_int st 256))))) in
-      let body = enc_len (Rdbgen.form st n) (n_of_int n) @ List.concat_map (fun (m, raw) -> enc_string (SRaw (Rdbgen.form st (String.length m), bs m)) @ bs raw) ms in
-      let bits raw = le_dec (bs raw) in
-      Dec ("zset2 binary scores", 5, string_of_bytes body, Some (LZSet (List.map (fun (m, raw) -> (bs m, (let b = bits raw in if is_nan b then b else b))) ms)))
+include Valgen
+let gen_compact st : case = let (d, t, b, l) = Valgen.gen_compact st in Dec (d, t, b, l)
 
 let gen st tier =
   let thorough = tier = "thorough" in
